@@ -649,6 +649,11 @@ def compare_binaries(ctx, case, desc, skip, lib, i):
     from fontTools.ttLib import TTFont
     # give some glyphs code points so that the cmap is exercised
     desc = dict(desc, glyphs=[dict(g, unicodes=[0x41 + k]) for k, g in enumerate(desc["glyphs"])])
+    # ... and variation sequences to EVERY glyph (so also to the skipped ones): the sequences of a skipped glyph vanish from the
+    # character map with it, the others stay
+    nm = [g["name"] for g in desc["glyphs"]]
+    uvs = {"FE00": {"%04X" % (0x41 + k): nm[(k + 1) % len(nm)] for k in range(len(nm))}, "FE01": {"%04X" % 0x41: nm[-1]}}
+    desc = dict(desc, lib=dict(desc.get("lib", {}), **{"public.unicodeVariationSequences": uvs}))
     for flavor in ("otf", "ttf"):
         comp = ufo2ft.compileOTF if flavor == "otf" else ufo2ft.compileTTF
         fa = build_font(desc, lib)
@@ -672,6 +677,13 @@ def compare_binaries(ctx, case, desc, skip, lib, i):
         ca, cb = a["cmap"].getBestCmap(), b["cmap"].getBestCmap()
         if cb != {k: v for k, v in ca.items() if v not in skip}:
             ctx.spec_failure(c2, "cmap with skipping is not the cmap without minus skipped glyphs")
+        def uvs_of(t):
+            sub = [st for st in t["cmap"].tables if st.format == 14]
+            return {(sel, cp): (g if g is not None else t["cmap"].getBestCmap().get(cp)) for st in sub for sel, lst in st.uvsDict.items() for cp, g in lst}
+        ua, ub = uvs_of(a), uvs_of(b)
+        if ub != {k: v for k, v in ua.items() if v not in skip}:
+            ctx.spec_failure(dict(c2, sequences_without_skipping=jsonable(sorted(ua.items())), sequences_with_skipping=jsonable(sorted(ub.items()))),
+                             "variation sequences with skipping are not the sequences without minus those of skipped glyphs")
         for n in ob:
             if a["hmtx"][n][0] != b["hmtx"][n][0]:
                 ctx.spec_failure(c2, "advance of %r changed: %r -> %r" % (n, a["hmtx"][n], b["hmtx"][n]))
